@@ -22,7 +22,7 @@ CLAUSES = {   # minimum evaluations per run (a quick run reaches three to seven 
     "C12.genetic": 10000, "C12.genic": 1000,
     "C12.structure.symmetry": 500, "C12.structure.zero": 4000, "C12.structure.reorder": 400, "C12.structure.labels": 400,
     "C12.routes": 500, "C12.chunk": 200, "C12.uc": 600, "C12.uc.shape": 80, "C12.history": 1500,
-    "C12.sequence": 800,
+    "C12.sequence": 1200, "C12.sequence.changed": 300,   # .changed: the exact answer differs from the one to the previous request
 }
 RULE = ("seeded class-based cases: 2-5 parents (inbred for two/three/four-way; arbitrary phased, fully heterozygous, "
         "inbred, duplicated and phase-swapped genotypes for dihybrid), 1-7 loci for full enumeration (8-14 loci with the "
@@ -38,7 +38,7 @@ RULE = ("seeded class-based cases: 2-5 parents (inbred for two/three/four-way; a
         "used as long-lived objects: 1-3 of the library's own operations (reorder/sort/group/select/delete/remove/lexsort+"
         "reorder/copy/deepcopy/ungroup on the taxa axes, generic with positive and negative axis numbers and axis-specific; "
         "reorder/select/delete/remove/sort on the trait axes) are applied and every followed entry is re-judged.  A 'seq' family "
-        "sends 2-4 requests to ONE factory object (every factory class) or one matrix class (all 16), through from_gmod and "
+        "sends 2-5 requests to ONE factory object (every factory class) or one matrix class (all 16), through from_gmod and "
         "from_algmod, changing between requests one of: nself (alone / with nprogeny), the pgmat (new object or same object "
         "with genotypes / genetic positions replaced through its setters), the model (new object or u_a setter), ncross and "
         "nprogeny, mem, the map function object, nothing, nothing after the caller reordered the previous answer in place; "
@@ -1102,7 +1102,7 @@ def seq_call(ctx, holder, scheme, kind, route, st):
         return None, e
 
 
-def seq_expected(g, scheme, kind, st, n, budget):
+def seq_expected(scheme, kind, st, n, tuples):
     """{index tuple: (expected entry, tuple class)} from the enumeration for the arguments held in ``st``."""
     genetic = kind.endswith("genetic")
     mchr, mpos, mh0, mh1, mu = on_map(st["chrgrp"], st["genpos"], st["h0"], st["h1"], st["u"])
@@ -1110,7 +1110,7 @@ def seq_expected(g, scheme, kind, st, n, budget):
     hap = [(mh0[i], mh1[i]) for i in range(n)]
     homoz = [bool((st["h0"][i] == st["h1"][i]).all()) for i in range(n)]
     out = {}
-    for idx in pick_tuples(g, scheme, n, budget, homoz):
+    for idx in tuples:
         tc = tclass(scheme, idx, homoz)
         if tc == "female == male, heterozygous parent":
             continue
@@ -1119,7 +1119,7 @@ def seq_expected(g, scheme, kind, st, n, budget):
 
 
 def case_seq(ctx, c):
-    """Two to four requests to ONE factory object (or one matrix class) with arguments that change between the requests;
+    """Two to five requests to ONE factory object (or one matrix class) with arguments that change between the requests;
     every answer is judged against the enumeration for the arguments of its own request, and answers given earlier must
     not be altered by later requests."""
     from pybrops.popgen.gmap.HaldaneMapFunction import HaldaneMapFunction
@@ -1133,33 +1133,39 @@ def case_seq(ctx, c):
         kind = list(KINDS)[int(g.integers(0, 4))]
         via_factory = False
     genetic = kind.endswith("genetic")
-    L = int(g.integers(1, 5))
+    L = int(g.integers(2, 6)) if g.random() < 0.85 else 1
     n = int(g.integers(2, 5)) if scheme != "fourway" else int(g.integers(2, 4))
     posmode = POSMODES[int(g.integers(0, len(POSMODES)))]
     chrgrp, genpos = gen_layout(g, L, posmode)
     h0, h1, pcls = gen_parents(g, n, L, scheme)
+    if g.random() < 0.5:                           # several linked segregating loci, so that the selfing depth matters
+        if scheme == "dihybrid":
+            h1[0] = 1 - h0[0]
+        else:
+            h0[1] = 1 - h0[0]; h1[1] = h0[1]
     u, beta, ucls = gen_effects(g, L)
     nt = u.shape[1]
     nselfs = [0, 1, 2, 3, INF, numpy.int64(1)]
     st = {"h0": h0, "h1": h1, "u": u, "beta": beta, "chrgrp": chrgrp, "genpos": genpos, "H": HaldaneMapFunction(),
           "nself": nselfs[int(g.integers(len(nselfs)))] if genetic else 0, "nmating": int(g.integers(1, 20)), "nprogeny": int(g.integers(1, 80)),
           # "default": argument omitted (the genic classes have no default for mem)
-          "mem": [None, 1, 2, L, 1024, "default", "default", "default"][int(g.integers(0, 8 if genetic else 5))]}
+          "mem": [None, 1, 2, L, 1024, "default", "default", "default", "default", "default"][int(g.integers(0, 10 if genetic else 5))]}
     st["pg"], st["mod"] = make_inputs(h0, h1, chrgrp, genpos, u, beta, g, True, gen_umisc(g, nt))
     holder = lib_factory(scheme, kind) if via_factory else None
     hname = "factory object" if via_factory else "matrix class"
-    ncalls = int(g.integers(2, 5))
+    ncalls = int(g.integers(2, 6))
+    main_route = ["from_gmod", "from_algmod"][int(g.integers(0, 2))]   # most requests of a case go through the same method
     coords = [c, "seq"]
     ctx.case("seq:%s/%s/%s" % (scheme, kind, hname), h0, h1, u, beta, chrgrp, genpos, nself_name(st["nself"]), st["mem"], ncalls,
              trivial=bool((h0 == h0[0]).all() and (h1 == h0[0]).all()) or not u.any())
     summary = {"family": "seq", "scheme": scheme, "class": lib_class(scheme, kind).__name__, "asked": hname, "calls": []}
     if c % 29 == 0:
         ctx.sample(summary)
-    tol = None
+    tuples = pick_tuples(g, scheme, n, 24, [bool((h0[i] == h1[i]).all()) for i in range(n)])
     earlier = []                                   # [object returned, snapshot of its matrix]
-    prev_mat = None
+    prev_mat = prev_exp = None
     for call in range(ncalls):
-        route = ["from_gmod", "from_algmod"][int(g.integers(0, 2))]
+        route = main_route if g.random() < 0.8 else ["from_gmod", "from_algmod"][int(g.integers(0, 2))]
         change = None
         if call > 0:
             pool = [x for x in SEQ_CHANGES if genetic or not (x.startswith("nself") or x == "new map function object")]
@@ -1221,7 +1227,7 @@ def case_seq(ctx, c):
             return
         M = numpy.asarray(obj.mat)
         tol = entry_tol(kind, var_scale(st["u"]))
-        exp = seq_expected(g, scheme, kind, st, n, 24 if st["nself"] != INF else 12)
+        exp = seq_expected(scheme, kind, st, n, tuples if st["nself"] != INF else tuples[:12])
         want_shape = (n,) * NTUP[scheme] + ((nt,) if kind.startswith("vmat") else (nt, nt))
         ocls = order_class(st["chrgrp"], st["genpos"]) if genetic else ""
         if call == 0:
@@ -1248,7 +1254,9 @@ def case_seq(ctx, c):
                         break
             stale = bad is not None and prev_mat is not None and prev_mat.shape == M.shape and numpy.array_equal(prev_mat, M, equal_nan=True)
             ctx.sumnote("seq: later requests judged (%s)" % hname)
-            ctx.check("C12.sequence", bad is None, site,
+            # does the exact answer to this request differ from the exact answer to the previous one (on the judged tuples)?
+            differs = any(i in prev_exp and not close(e, prev_exp[i][0], 10.0 * numpy.maximum(tol, prev_tol)) for i, (e, tc) in exp.items())
+            ctx.check("C12.sequence.changed" if differs else "C12.sequence", bad is None, site,
                       "later request to the same %s: entry == exact gamete enumeration for the arguments of THIS request" % hname, icls,
                       what=None if bad is None else "%s request %d: entry %s = %s, enumeration %s%s" % (
                           type(obj).__name__, call + 1, bad[0], bad[1], bad[2], " (the matrix equals the answer to the previous request)" if stale else ""),
@@ -1259,7 +1267,7 @@ def case_seq(ctx, c):
             if bad is not None or not same:
                 return
         earlier.append([obj, numpy.array(M, copy=True)])
-        prev_mat = earlier[-1][1]
+        prev_mat, prev_exp, prev_tol = earlier[-1][1], exp, tol
 
 
 def gen_layout_one(g, L, posmode):
@@ -1275,7 +1283,7 @@ def gen_layout_one(g, L, posmode):
 
 
 FAMILIES = {"mat": (case_mat, 3840, 16 * 4000), "chunk": (case_chunk, 640, 16 * 1000), "uc": (case_uc, 480, 16 * 640),
-            "large": (case_large, 40, 16 * 40), "seq": (case_seq, 480, 16 * 480)}
+            "large": (case_large, 40, 16 * 40), "seq": (case_seq, 960, 16 * 960)}
 
 
 def run_shard(ctx):
